@@ -323,8 +323,13 @@ def check_chain(roots, target_fn, chains, delivery, rec=None):
                 tf = T.tooled_family()
                 F.DISPATCH.update(tf)
                 env = dict(tf, **PREDS)
-                for ir, (c, K) in zip(irs, chains):
-                    stack.enter_context(Overlay.tweaking({ptera.select(G.canonical(ir), env=env): K}))
+                sels = [ptera.select(G.canonical(ir), env=env) for ir in irs]
+                if delivery == "overlay-one" and len(set(map(id, sels))) == len(sels):
+                    # all overrides given to ONE tweaking call (dict order = activation order)
+                    stack.enter_context(Overlay.tweaking({sx: K for sx, (c, K) in zip(sels, chains)}))
+                else:
+                    for sx, (c, K) in zip(sels, chains):
+                        stack.enter_context(Overlay.tweaking({sx: K}))
                 got = []
                 stack.enter_context(BaseOverlay(Immediate(ptera.select(G.canonical(plain_ir), env=env),
                                                           trigger=lambda a: got.append(a["p0"].value))))
@@ -468,7 +473,7 @@ def chain_strategy():
                     chain.append(fn)
             chain.append(target)
             chains.append((chain, 1000 + i))
-        return roots, target, chains, draw(st.sampled_from(["probe", "overlay"]))
+        return roots, target, chains, draw(st.sampled_from(["probe", "overlay", "overlay-one"]))
 
     return cases()
 
